@@ -55,6 +55,9 @@ func (e Event) String() string {
 
 // Config parameterises a stream pair.
 type Config struct {
+	// PostSend runs after a packet was handed over and before SendMsg
+	// returns (a transport whose send completes after delivery).
+	PostSend func(end string, pk *types.Packet)
 	Cap int // packets buffered per direction (0 = rendezvous)
 	// Hook is called inside every SendMsg/RecvMsg (phase 0: on entry while the
 	// in-flight counter is raised, phase 1: after the packet was handed over).
@@ -340,6 +343,9 @@ func (e *End) SendMsg(m interface{}) error {
 	e.pair.record(ev)
 	if cfg.Hook != nil {
 		cfg.Hook(e.Name, "send", idx, 1)
+	}
+	if cfg.PostSend != nil {
+		cfg.PostSend(e.Name, pk)
 	}
 	return nil
 }
